@@ -6,7 +6,7 @@ PROP = dict(
             dict(name="e3", pkg=".", test="TestVerifC03E3", files=["mc/c04/*.go", "mc/c04/e3/*.go", "mc/c03/e3/*.go"], parts=["e3-receive-lockpoints"],
                  libs=["explore", "canon", "sched", "vsync"],
                  rewrite={f: [('"sync"', 'sync "github.com/refraction-networking/uquic/internal/verifmc/vsync"')]
-                          for f in ("receive_stream.go", "send_stream.go", "internal/flowcontrol/base_flow_controller.go")}),
+                          for f in ("receive_stream.go", "send_stream.go", "framer.go", "internal/flowcontrol/base_flow_controller.go")}),
         ],
         crash_is_violation=True,
         level="model_checking", shards=1,
